@@ -100,11 +100,31 @@ def mutants_of_line(line):
     # + 1 / - 1 removal handled by decimal tweak
 
 
+CALL_STMT = re.compile(r"^\s*[\w.\[\]]+\((.*)\)\s*(//.*)?$")
+
+
+def is_simple_stmt(line):
+    st = line.split("//")[0].strip()
+    if not st or st.endswith("{") or st.startswith(("}", "return", "defer", "if ", "for ", "case ", "default", "var ", "go ", "switch", "else", "break", "continue")):
+        return False
+    if ":=" in st and "func" in st:
+        return False
+    return bool(CALL_STMT.match(line)) or bool(re.match(r"^\s*[\w.\[\]]+\s*(=|\+=|-=)\s*[^=].*$", line.split("//")[0]))
+
+
 def enumerate_mutants():
+    round2 = os.environ.get("ROUND") == "2"
     out = []
     for f in FILES:
         lines = open(os.path.join(REPO, f)).read().split("\n")
         for ln, line in enumerate(lines):
+            if round2:
+                # second round of operators: deletion of call statements, swap of two adjacent simple statements
+                if CALL_STMT.match(line) and is_simple_stmt(line) and "fmt.Errorf" not in line:
+                    out.append({"file": f, "line": ln + 1, "desc": "delete call", "old": line, "new": line[:len(line) - len(line.lstrip())] + "// deleted call"})
+                if ln + 1 < len(lines) and is_simple_stmt(line) and is_simple_stmt(lines[ln + 1]) and line.strip() != lines[ln + 1].strip():
+                    out.append({"file": f, "line": ln + 1, "desc": "swap with next statement", "old": line, "new": lines[ln + 1], "swap": True})
+                continue
             seen = set()
             for desc, new in mutants_of_line(line):
                 new = new.rstrip("\n")
@@ -126,7 +146,10 @@ def try_mutant(m):
     try:
         p = os.path.join(d, m["file"])
         lines = open(p).read().split("\n")
-        lines[m["line"] - 1] = m["new"]
+        if m.get("swap"):
+            lines[m["line"] - 1], lines[m["line"]] = lines[m["line"]], lines[m["line"] - 1]
+        else:
+            lines[m["line"] - 1] = m["new"]
         open(p, "w").write("\n".join(lines))
         r = subprocess.run(["go", "build", "./..."], cwd=d, env=ENV, stdout=subprocess.PIPE, stderr=subprocess.STDOUT)
         if r.returncode != 0:
@@ -152,7 +175,7 @@ def gen(outdir):
         for m, (status, diff) in zip(ms, ex.map(try_mutant, ms)):
             stats[status] = stats.get(status, 0) + 1
             if status == "survivor":
-                mid = "%s-%d-%s" % (m["file"].replace(".go", ""), m["line"], hashlib.sha1(m["new"].encode()).hexdigest()[:6])
+                mid = "%s-%d-%s" % (m["file"].replace(".go", ""), m["line"], hashlib.sha1((m["desc"] + m["new"]).encode()).hexdigest()[:6])
                 open(os.path.join(outdir, mid + ".diff"), "w").write(diff)
                 m["id"] = mid
                 index.append(m)
